@@ -429,6 +429,31 @@ def special_default_cases(rng, res):
         return ("call-raised", type(e).__name__)
     return out
 
+  # (3) TaggedValues that survive as objects (in containers) and hold Buildables with defaulted parameters:
+  # materialize_defaults must reach those Buildables too
+  tv_cfg = fdl.Config(l2.fd, layers=[l2.TagA.new(fdl.Config(l2.fa, 1)), l2.TagB.new([fdl.Config(l2.Ka, p=2)])],
+                      other=(l2.TagA.new(fdl.Partial(l2.fg, 3)),))
+  out = copy.deepcopy(tv_cfg)
+  res.evaluations += 1
+  res.count("special-default:tagged-value-holding-buildables")
+  try:
+    materialize.materialize_defaults(out)
+    missing = []
+    for b in c02.reachable(out):
+      if isinstance(b, config_lib.Buildable) and not isinstance(b, config_lib.TaggedValueCls):
+        for pname, kind, has, _ in l2.sig_params(b.__fn_or_cls__):
+          if has and kind in ("PosOrKw", "KwOnly") and pname not in b.__arguments__:
+            missing.append(f"{l2.sym_name(b.__fn_or_cls__)}.{pname}")
+    if missing:
+      res.failures.append(Failure(None, "C20 special-default: after materialize_defaults parameters with a default "
+                                  f"are still unset below a TaggedValue: {missing}", {"cfg": repr(tv_cfg)}))
+    if try_build(out) != try_build(tv_cfg):
+      res.failures.append(Failure(None, "C20 special-default: materialize_defaults changed the build of a "
+                                  "configuration holding TaggedValues", {"cfg": repr(tv_cfg)}))
+  except Exception as e:  # pylint: disable=broad-except
+    res.failures.append(Failure(None, f"C20 special-default: materialize_defaults raised {type(e).__name__}: {e}",
+                                {"cfg": repr(tv_cfg)}))
+
   for label, cfg, call_args in cases:
     for name in ("materialize_defaults", "with_defaults_trimmed"):
       res.evaluations += 1
